@@ -45,7 +45,7 @@ def configs(rd):
     return sorted(json.loads(m.group(1).replace('\\"', '"')), key=lambda x: json.dumps(x, sort_keys=True))
 
 
-TRACKERS = """number of trackers: 2
+TRACKERS = """number of trackers: 3
 
 tracker[0]:
   type: Spectrum
@@ -55,6 +55,11 @@ tracker[1]:
   type: Spectrum
   position: [2. pc, 0. pc, 1. pc]
   output name: special_position.txt
+
+tracker[2]:
+  type: Spectrum
+  position: [0.01 pc, 0.01 pc, 0.01 pc]
+  output name: same_cell_as_the_first.txt
 """
 
 
@@ -73,10 +78,15 @@ def run_one(exe, d, cf, seed):
             open(os.path.join(d, "trackers.yml"), "w").write(TRACKERS)
             extra = "  enable trackers: true\n\nTrackerManager:\n  filename: %s/trackers.yml\n" % d
             expect += ["Spectrum_tracker_*.txt|special_position.txt|*tracker*"]
-        p = rhdparams.ion_param(d, ncell=(8, 8, 8), nsub=(2, 2, 2), nphoton=5000, niter=2, diffuse=bool(cf["diffuse"]),
+        big = bool(cf.get("big"))
+        p = rhdparams.ion_param(d, ncell=(24, 24, 24) if big else (8, 8, 8), nsub=(1, 1, 1) if big else (2, 2, 2), nphoton=5000, niter=2,
+                                diffuse=bool(cf["diffuse"]),
                                 continuous=bool(cf["continuous"]), copy_level=cf["copy"], seed=seed, extra=extra)
+        if cf.get("gadget"):
+            ptxt = open(p).read().replace("type: AsciiFile", "type: Gadget")
+            open(p, "w").write(ptxt)
         cmds.append("%s --task-based --params %s --threads %d%s" % (exe, p, cf["nthr"], " --task-plot" if cf["plot"] else ""))
-        expect += ["snap_*.txt"]
+        expect += ["snap_*.hdf5" if cf.get("gadget") else "snap_*.txt"]
     else:
         extra = ""
         if cf["turb"]:
@@ -103,7 +113,9 @@ def run_one(exe, d, cf, seed):
         per = (False, False, False) if rad else (True, True, True)
         p = rhdparams.rhd_param(d, ncell=(16, 8, 8) if cf.get("aniso") else (8, 8, 8), nsub=(2, 2, 2), periodic=per, total_time=1.0e-3,
                                 radiation=rad, nphoton=2000, niter=2, seed=seed, dump_every_step=cf["mode"] == "restart",
-                                max_backups=cf["maxb"], extra=extra + blocks)
+                                max_backups=cf["maxb"], extra=extra + blocks + ("  do stellar feedback: true\n" if cf.get("sn") else ""),
+                                source_block=("PhotonSourceDistribution:\n  type: SingleSupernova\n  position: [0.4 m, 0.6 m, 0.55 m]\n"
+                                              "  lifetime: 1.e-12 s\n  luminosity: 1.e46 s^-1\n  energy: 1.e-9 J\n") if cf.get("sn") else None)
         txt = open(p).read().replace("type: AsciiFile", "type: Gadget").replace("  snapshot time: -1 s\n", "" if cf["snaps"] else "  snapshot time: -1 s\n")
         open(p, "w").write(txt)
         base = "%s --task-based-rhd --params %s --threads %d" % (exe, p, cf["nthr"])
@@ -181,8 +193,9 @@ def run(c):
         cand = [x for x in cfgs if x["mode"] == mode]
         must.append(rng.choice(cand))
         if mode == "ion":
-            for key in ("diffuse", "continuous", "trackers", "plot"):
+            for key in ("diffuse", "continuous", "trackers", "plot", "gadget"):
                 must.append(rng.choice([x for x in cand if x[key] == 1]))
+            must.append(rng.choice([x for x in cand if x["gadget"] == 1 and x["big"] == 1 and x["nthr"] == 4]))
         else:
             for key in ("live", "ionsurf", "mask", "turb", "snaps"):
                 must.append(rng.choice([x for x in cand if x[key] == 1 and (key != "ionsurf" or x["live"] == 1)]))
@@ -190,6 +203,8 @@ def run(c):
                 must.append(rng.choice([x for x in cand if x["aniso"] == 1 and x["live"] == 1 and x["ionsurf"] == 1]))
                 for fs in (2, 9):
                     must.append(rng.choice([x for x in cand if x["first"] == fs]))
+            if mode == "rhdrad":
+                must.append(rng.choice([x for x in cand if x["sn"] == 1]))
             if mode == "restart":
                 for mb in (2, 3):
                     must.append(rng.choice([x for x in cand if x["maxb"] == mb]))
@@ -201,7 +216,7 @@ def run(c):
         if k not in seen:
             seen.add(k)
             sample.append(x)
-    nrun = 26 if tier == "quick" else 300
+    nrun = 30 if tier == "quick" else 300
     rest = [x for x in cfgs if json.dumps(x, sort_keys=True) not in seen]
     sample = sample[:nrun] if tier == "quick" else sample + rng.sample(rest, min(len(rest), nrun - len(sample)))
 
